@@ -1004,6 +1004,26 @@ class Visitor(ast.NodeVisitor):
 
         return generator_expr_func(**self._name_to_value)
 
+    def _visit_parts_of_comprehension(
+        self, parts: List[ast.expr], generators: List[ast.comprehension]
+    ) -> None:
+        """
+        Visit the parts of a comprehension to re-compute the values unrelated to the targets of the comprehension.
+
+        Mind that Python might not have evaluated a part at all (*e.g.*, if the iterable is empty or a condition of
+        the comprehension filters out all the items). A part which can not be re-computed is therefore simply ignored.
+        """
+        nodes = list(parts)  # type: List[ast.expr]
+        for generator in generators:
+            nodes.append(generator.iter)
+            nodes.extend(generator.ifs)
+
+        for a_node in nodes:
+            try:
+                self.visit(a_node)
+            except Exception:  # pylint: disable=broad-except
+                pass
+
     def visit_GeneratorExp(self, node: ast.GeneratorExp) -> Any:
         """Compile the generator expression as a function and call it."""
         # NOTE ABOUT PLACEHOLDERS AND RE-COMPUTATION:
@@ -1036,13 +1056,9 @@ class Visitor(ast.NodeVisitor):
         ):
             self._name_to_value[target_name] = PLACEHOLDER
 
-        self.visit(node.elt)
-
-        for generator in node.generators:
-            self.visit(generator.iter)
-
-            for generator_if in generator.ifs:
-                self.visit(generator_if)
+        self._visit_parts_of_comprehension(
+            parts=[node.elt], generators=node.generators
+        )
 
         self._name_to_value = old_name_to_value
 
@@ -1063,13 +1079,9 @@ class Visitor(ast.NodeVisitor):
         ):
             self._name_to_value[target_name] = PLACEHOLDER
 
-        self.visit(node.elt)
-
-        for generator in node.generators:
-            self.visit(generator.iter)
-
-            for generator_if in generator.ifs:
-                self.visit(generator_if)
+        self._visit_parts_of_comprehension(
+            parts=[node.elt], generators=node.generators
+        )
 
         self._name_to_value = old_name_to_value
 
@@ -1092,13 +1104,9 @@ class Visitor(ast.NodeVisitor):
         ):
             self._name_to_value[target_name] = PLACEHOLDER
 
-        self.visit(node.elt)
-
-        for generator in node.generators:
-            self.visit(generator.iter)
-
-            for generator_if in generator.ifs:
-                self.visit(generator_if)
+        self._visit_parts_of_comprehension(
+            parts=[node.elt], generators=node.generators
+        )
 
         self._name_to_value = old_name_to_value
 
@@ -1121,14 +1129,9 @@ class Visitor(ast.NodeVisitor):
         ):
             self._name_to_value[target_name] = PLACEHOLDER
 
-        self.visit(node.key)
-        self.visit(node.value)
-
-        for generator in node.generators:
-            self.visit(generator.iter)
-
-            for generator_if in generator.ifs:
-                self.visit(generator_if)
+        self._visit_parts_of_comprehension(
+            parts=[node.key, node.value], generators=node.generators
+        )
 
         self._name_to_value = old_name_to_value
 
